@@ -119,9 +119,9 @@ def _parse_tlc(out):
     m = re.search(r"Invariant (\S+) is violated", out)
     if m:
         r["violated"] = m.group(1)
-    m = re.search(r"Action property (\S+) is violated|Temporal properties were violated", out)
+    m = re.search(r"Action property (\S+) is violated|Temporal property (\S+) was violated|Temporal properties were violated", out)
     if m and not r["violated"]:
-        r["violated"] = m.group(1) or "temporal"
+        r["violated"] = m.group(1) or m.group(2) or "temporal"
     m = re.search(r"Error: Deadlock reached", out)
     if m and not r["violated"]:
         r["violated"] = "Deadlock"
@@ -218,7 +218,7 @@ class Ctx:
             c[1] += v[1]
         if expect == "ok":
             for a in required_actions:
-                if sum(r["coverage"].get(x, [0, 0])[0] for x in a.split("|")) == 0:
+                if sum(r["coverage"].get(x, [0, 0])[1] for x in a.split("|")) == 0:     # generated successor states
                     raise Infra("vacuity guard: action %s never taken in %s" % (a, lab))
         self.mc_runs.append({"model": lab, "expect": expect, "distinct_states": r["distinct"], "states_generated": r["states"],
                              "depth": r["depth"], "wall_s": r["wall_s"], "mode": "simulate" if simulate else "bfs-exhaustive"})
@@ -480,3 +480,9 @@ def record_and_validate(ctx, exe, args, trace_path, spec_dir, tla, cfg, what, ti
         msg += " | " + fault
     ctx.violation(msg, replay, signature=sig)
     return False, n_exec
+
+EVENT_SRC = ["event/loop.cpp", "event/common_loop.cpp", "event/common_loop_timer.cpp", "event/common_loop_signal.cpp",
+             "event/common_loop_run.cpp", "event/timer_event_impl.cpp", "event/signal_event_impl.cpp", "event/misc.cpp",
+             "event/stat.cpp", "event/engines/select/loop.cpp", "event/engines/select/fd_event.cpp",
+             "event/engines/epoll/loop.cpp", "event/engines/epoll/fd_event.cpp"]
+EVENT_DEFS = ["HAVE_SELECT=1", "HAVE_EPOLL=1"]
